@@ -107,6 +107,7 @@ const char * message_str[] = {
         "flush",
         "user_data",
         "fsr",
+        "fsr_omit",
         "annotation",
         "utc",
 };
@@ -222,6 +223,7 @@ int32_t jls_twr_open(struct jls_twr_s ** instance, const char * path) {
     self->wr = wr;
     self->flush_send_id = 0;
     self->flush_processed_id = 0;
+    memset(self->fsr_entry_size_bits, 0, sizeof(self->fsr_entry_size_bits));  // 0 = signal not defined
 
     jls_mrb_init(&self->mrb, self->mrb_buffer, MRB_BUFFER_SIZE);
     self->bk = jls_bkt_initialize(self);
@@ -322,14 +324,19 @@ int32_t jls_twr_source_def(struct jls_twr_s * self, const struct jls_source_def_
 
 int32_t jls_twr_signal_def(struct jls_twr_s * self, const struct jls_signal_def_s * signal) {
     jls_bkt_process_lock(self->bk);
-    self->fsr_entry_size_bits[signal->signal_id] = jls_datatype_parse_size(signal->data_type);
     int32_t rv = jls_wr_signal_def(self->wr, signal);
+    if ((0 == rv) && (signal->signal_type == JLS_SIGNAL_TYPE_FSR)) {  // rv == 0 implies signal_id < JLS_SIGNAL_COUNT
+        self->fsr_entry_size_bits[signal->signal_id] = jls_datatype_parse_size(signal->data_type);
+    }
     jls_bkt_process_unlock(self->bk);
     return rv;
 }
 
 int32_t jls_twr_user_data(struct jls_twr_s * self, uint16_t chunk_meta,
                           enum jls_storage_type_e storage_type, const uint8_t * data, uint32_t data_size) {
+    if (((storage_type == JLS_STORAGE_TYPE_STRING) || (storage_type == JLS_STORAGE_TYPE_JSON)) && (NULL != data)) {
+        data_size = (uint32_t) strlen((const char *) data) + 1;  // data_size is documented as ignored for strings
+    }
     struct msg_header_s hdr = {
             .msg_type = MSG_USER_DATA,
             .h = {
@@ -356,7 +363,14 @@ int32_t jls_twr_fsr(struct jls_twr_s * self, uint16_t signal_id,
             },
             .d = 0
     };
-    uint32_t length = (data_length * self->fsr_entry_size_bits[signal_id] + 7) / 8;
+    if (signal_id >= JLS_SIGNAL_COUNT) {
+        return JLS_ERROR_PARAMETER_INVALID;
+    }
+    if (0 == self->fsr_entry_size_bits[signal_id]) {
+        JLS_LOGW("fsr signal %d not defined", (int) signal_id);
+        return JLS_ERROR_NOT_FOUND;  // the sample size, and with it the amount of data to copy, is unknown
+    }
+    uint32_t length = (uint32_t) ((((uint64_t) data_length) * self->fsr_entry_size_bits[signal_id] + 7) / 8);
     int32_t rc;
     if (self->flags & JLS_TWR_FLAG_DROP_ON_OVERFLOW) {
         rc = msg_send_inner(self, &hdr, (const uint8_t *) data, length);
@@ -372,6 +386,10 @@ int32_t jls_twr_fsr(struct jls_twr_s * self, uint16_t signal_id,
 
 int32_t jls_twr_fsr_f32(struct jls_twr_s * self, uint16_t signal_id,
                         int64_t sample_id, const float * data, uint32_t data_length) {
+    if ((signal_id < JLS_SIGNAL_COUNT) && self->fsr_entry_size_bits[signal_id]
+            && (self->fsr_entry_size_bits[signal_id] != (8 * sizeof(float)))) {
+        return JLS_ERROR_PARAMETER_INVALID;  // data holds 4 bytes per sample
+    }
     return jls_twr_fsr(self, signal_id, sample_id, data, data_length);
 }
 
@@ -395,6 +413,9 @@ int32_t jls_twr_annotation(struct jls_twr_s * self, uint16_t signal_id, int64_t 
                            uint8_t group_id,
                            enum jls_storage_type_e storage_type,
                            const uint8_t * data, uint32_t data_size) {
+    if (((storage_type == JLS_STORAGE_TYPE_STRING) || (storage_type == JLS_STORAGE_TYPE_JSON)) && (NULL != data)) {
+        data_size = (uint32_t) strlen((const char *) data) + 1;  // data_size is documented as 0 for strings
+    }
     struct msg_header_s hdr = {
             .msg_type = MSG_ANNOTATION,
             .h = {
